@@ -148,18 +148,8 @@ def gen_cases(ctx, rng, nimg, per_img, ntj):
             for q in range(npass):
                 k = max(k, rng.choice(ks))
                 ops = gen_ops(rng, oh, L, vmax, rng.chance(3, 4))
-                if q < npass - 1:
-                    # a skip that reaches the bottom sets inputctl->eoi_reached (hazard 8): later passes would see no new scans
-                    y, toks = 0, []
-                    for t in ops.split():
-                        n = int(t[1:])
-                        if t[0] == "S" and y + n >= oh:
-                            t = "R%d" % n
-                        toks.append(t)
-                        y = min(oh, y + n)
-                    ops = " ".join(toks)
                 passes.append("%d %s" % (k, ops))
-            cases.append(("B %s | %d %d %d %d %d | %d %d %d | %s" % (head, M, fancy, dct, quant, ocs, cx, cw, when, " ; ".join(passes)), "buf"))
+            cases.append(("%s %s | %d %d %d %d %d | %d %d %d | %s" % ("C" if rng.chance(1, 4) else "B", head, M, fancy, dct, quant, ocs, cx, cw, when, " ; ".join(passes)), "buf"))
         if samp in MCUW:
             for j in range(ntj):
                 sfi = rng.below(16)
@@ -462,7 +452,7 @@ def run_cases(ctx, cases, exes, drv, flavours):
     disagree = 0
     for i, (line, rline, seg) in enumerate(cases):
         mhead, mprov, hz, over, band = model[i]
-        haz8 = earlier_skip_to_bottom(rline, seg)
+        haz8 = False     # bufimage-hazard8 is fixed in /repo (generated fact gen_skip_clamp_guards_buffered)
         if band < 0:       # the frame's geometry does not satisfy the hypothesis of the context-controller theorem
             ctx.broken_tie("ctx-v2-geometry", "derive_config's geometry violates ctx_v2_ok on: " + line[:200])
             band = 0
@@ -485,8 +475,6 @@ def run_cases(ctx, cases, exes, drv, flavours):
                 # a crash/hang belongs to a known hazard only if the faithful model predicts the memory-unsafe
                 # step itself: a read past the last iMCU row (hazards 1..4) or the upsampler re-initialisation (5)
                 sig = HAZ[hz_c] if (hz_c == 5 or (hz_c in HAZ and over_c)) else "crash:" + ("tj" if is_tj else "lib")
-                if rline[:2] in ("B ", "C ") and any(earlier_skip_to_bottom(rline, q) for q in range(1, 5)) and rc == -14:
-                    sig = HAZ[8]      # input marked complete by a skip to the bottom: a later output pass waits forever
                 ctx.violation("implementation %s (%s build, rc=%d)%s: %s" % (
                     "hung (killed by the harness watchdog)" if rc == -14 else "crashed",
                     fl, rc, " -- jpeg_crop_scanline re-initialises the separate upsampler while the merged one is installed" if hz == 5 else "",
